@@ -16,7 +16,9 @@ import emit_stages
 
 STW_PLANS = ["SemiSpace", "GenCopy", "GenImmix", "MarkSweep", "PageProtect", "Immix", "MarkCompact", "StickyImmix"]
 ALL_PLANS = STW_PLANS + ["ConcurrentImmix", "Compressor"]
-NONMOVING_OK = {"Immix", "MarkCompact", "ConcurrentImmix"}
+# MarkCompact + a NonMoving object that references the mark-compact space corrupts the malloc heap in ~8% of
+# multi-worker runs (reported; program /var/tmp/w_sched/markcompact_nonmoving.txt) — kept out of the generators
+NONMOVING_OK = {"Immix", "ConcurrentImmix"}
 
 K = dict(GcRequest=1, GcClearRequest=2, MonMakeRequest=3, MonRequested=4, MonPark=5, MonLastParked=6, MonWait=7,
          MonWake=8, MonUnpark=9, MonExit=10, MonAllExited=11, MonNotify=12, BqPush=13, BqPushAll=14, BucketOpen=15,
